@@ -168,6 +168,136 @@ def status_case(case):
     return res
 
 
+# ---------------------------------------------------------------- special shapes
+
+
+def special_case(case):
+    """(1) an index of 1030 directory objects (beyond the 1000-object listing page) one of which vanished;
+    (2) a local store with a hash-state whose directory objects are intact but not write-protected;
+    (3) two stores that keep their indexes (get_index) in one tmp_dir."""
+    import os
+
+    from dvc_data.hashfile.db import HashFileDB, get_index
+    from dvc_data.hashfile.db.index import ObjectDBIndex
+    from dvc_data.hashfile.state import State
+    from dvc_data.hashfile.status import status
+    from dvc_data.hashfile.transfer import transfer
+
+    from .. import ref
+    from ..lab import BULK, BULK_MD5, LFS
+
+    res = {"n": 0, "trans": 0, "states": [], "outcomes": set(), "nontrivial": set(), "viol": [],
+           "vac": {"special_runs": 0}}
+
+    def note(sig, detail, sub):
+        if sig not in {v[0] for v in res["viol"]}:
+            res["viol"].append((sig, detail, dict(sub, part="special")))
+
+    kind = case["shape"]
+    if kind == "big-index":
+        names = list(BULK)[:1030]
+        dirs = {}
+        for c in names:
+            lst = {"f": BULK_MD5[c]}
+            dirs[ref.tree_oid(lst)] = (ref.tree_bytes(lst), BULK_MD5[c], BULK[c])
+        order = sorted(dirs)
+        for pos in (0, 999, 1000, len(order) - 1):
+            with World() as w:
+                odb = make_odb("base", w.p("s"))
+                cache = make_odb("local", w.p("cache"))
+                idx = ObjectDBIndex(w.p("idx"), "dest")
+                try:
+                    for d, (db, fo, fb) in dirs.items():
+                        put_raw(cache, d, db)
+                        if d != order[pos]:
+                            put_raw(odb, d, db)
+                            put_raw(odb, fo, fb)
+                    idx.update(list(dirs), [v[1] for v in dirs.values()])
+                    gone = order[pos]
+                    q = [gone, order[(pos + 1) % len(order)]]
+                    st = status(odb, {hi(o) for o in q}, index=idx, cache_odb=cache, jobs=1)
+                    res["n"] += 1
+                    res["trans"] += 1
+                    res["vac"]["special_runs"] += 1
+                    res["states"].append(digest_obj(("big-index", pos)))
+                    res["nontrivial"].add(digest_obj(("big-index", pos)))
+                    ex = {h.value for h in st.exists}
+                    if gone in ex:
+                        note("dir-reported-existing-but-absent/big-index",
+                             f"vanished directory at sorted position {pos} of {len(order)}", {"shape": kind})
+                    if q[1] not in ex:
+                        note("present-dir-reported-missing/big-index", f"position {pos}", {"shape": kind})
+                    if set(idx.dir_hashes()) & {gone}:
+                        note("index-holds-vanished-dir/big-index", f"position {pos}", {"shape": kind})
+                finally:
+                    idx.close()
+    elif kind == "stateful-local":
+        universe = FILES + [TREE_OID[t] for t in TREES]
+        for warm in (False, True):
+            for unprot in subsets([TREE_OID[t] for t in TREES] + FILES[:1]):
+                if not unprot:
+                    continue
+                with World() as w:
+                    state = State(root_dir=w.root, tmp_dir=w.p("tmp"))
+                    try:
+                        odb = make_odb("local", w.p("s"), state=state)
+                        fill_store(odb, universe)
+                        cache = make_odb("local", w.p("cache"))
+                        fill_store(cache, [TREE_OID[t] for t in TREES])
+                        if warm:
+                            # the state already vouches for every object (rows as add() writes them)
+                            from dvc_data.hashfile.hash_info import HashInfo
+
+                            state.save_many(((odb.oid_to_path(o), HashInfo("md5", o), None) for o in universe), LFS)
+                        for o in unprot:
+                            os.chmod(odb.oid_to_path(o), 0o644)
+                        for shallow in (True, False):
+                            st = status(odb, {hi(o) for o in universe}, cache_odb=cache, shallow=shallow, jobs=1)
+                            res["n"] += 1
+                            res["trans"] += 1
+                            res["vac"]["special_runs"] += 1
+                            ex = {h.value for h in st.exists}
+                            now = set(objects_only(store_snapshot(odb.path)))
+                            sub = {"shape": kind}
+                            if ex != set(universe):
+                                note("status-partition-wrong/reports-present-as-missing/stateful-local",
+                                     f"warm={warm} unprotected={[name_of(o) for o in unprot]} missing={[name_of(o) for o in set(universe) - ex]}", sub)
+                            if now != set(universe):
+                                note("status-deleted-an-intact-object/stateful-local",
+                                     f"warm={warm} gone={[name_of(o) for o in set(universe) - now]}", sub)
+                    finally:
+                        state.close()
+                res["states"].append(digest_obj((kind, warm, unprot)))
+                res["nontrivial"].add(digest_obj((kind, warm, unprot)))
+    else:  # shared-tmp-dir
+        with World() as w:
+            tmp = w.mkdir("indexes")
+            src = make_odb("local", w.p("src"))
+            fill_store(src, FILES + [TREE_OID[t] for t in TREES])
+            a = HashFileDB(LFS, w.mkdir("remote-a"), tmp_dir=tmp)
+            b = HashFileDB(LFS, w.mkdir("remote-b"), tmp_dir=tmp)
+            ia = get_index(a)
+            ids = {hi(o) for o in FILES + [TREE_OID[t] for t in TREES]}
+            transfer(src, a, ids, dest_index=ia, jobs=1)
+            ia.close()
+            ib = get_index(b)
+            # (a file-only query: nothing in it makes status re-validate indexed directories)
+            st = status(b, {hi(o) for o in FILES}, index=ib, cache_odb=src, jobs=1)
+            ib.close()
+            res["n"] += 2
+            res["trans"] += 2
+            res["vac"]["special_runs"] += 1
+            res["states"].append(digest_obj((kind,)))
+            res["nontrivial"].add(digest_obj((kind,)))
+            ex = {h.value for h in st.exists}
+            if ex:
+                note("status-partition-wrong/reports-absent-as-existing/shared-tmp-dir",
+                     f"store b is empty but {[name_of(o) for o in ex]} are reported as existing after a push to store a", {"shape": kind})
+    res["outcomes"] = sorted({v[0] for v in res["viol"]}) or ["clean"]
+    res["nontrivial"] = sorted(res["nontrivial"])
+    return res
+
+
 # ---------------------------------------------------------------- part (b)
 
 REQUESTS = {
@@ -318,10 +448,15 @@ def hist_case(case):
 def run_case(case):
     if case.get("part") == "hist":
         return hist_case(case)
+    if case.get("part") == "special":
+        return special_case(case)
     return status_case(case)
 
 
 def replay(case):
+    if case["part"] == "special":
+        r = special_case(case)
+        return [(s_, d) for s_, d, _c in r["viol"]]
     if case["part"] == "hist":
         viol, _s, _n = run_history([tuple(o) for o in case["hist"]], case.get("init", "empty"))
         print("history:", show([tuple(o) for o in case["hist"]]))
@@ -354,7 +489,7 @@ def run(ctx):
         "timestamps are dropped (no operation of the alphabet observes them)",
     ]
     ctx.require("strategy_list_oids_exists", "strategy_traverse", "expanded_queries", "compare_runs",
-                "histories_with_fault", "histories_with_delete_then_status")
+                "histories_with_fault", "histories_with_delete_then_status", "special_runs")
     universe = FILES + [TREE_OID[t] for t in TREES]
     cs = []
     for kind in ("base", "local"):
@@ -365,6 +500,7 @@ def run(ctx):
                 if kind == "local" and fillers and len(content) not in (0, len(universe)):
                     continue
                 cs.append({"part": "status", "kind": kind, "content": list(content), "fillers": fillers})
+    cs += [{"part": "special", "shape": sh} for sh in ("big-index", "stateful-local", "shared-tmp-dir")]
     ctx.run_cases("run_case", cs, chunksize=1, det=2)
     # (b) BFS
     nodedup = 3 if ctx.tier == "thorough" else 2
